@@ -17,7 +17,8 @@
 //	E
 //	R <sel> <n> <fid>*                 result of FindReachable; sel = nomain + 2*noinit
 //	C <sel> <n> <fid>*                 dataflow.CallGraphReachable on the pointer-analysis call graph (with -cg)
-//	D <sel> <n> <fid>*                 the same restricted to realizable edges (a closure is callable only once its parent is reached)
+//	D <sel> <n> <fid>*                 the same restricted to realizable edges (a dynamic edge is followed only once the callee's function value
+//	                                   is created by a reached function: function operand, or method of a type converted to an interface)
 //	Q <key> <count>                    statistics / cross-checks (operand fields by reflection vs instr.Operands())
 //	Z
 //
@@ -449,7 +450,7 @@ func dumpProgram(w, nw *bufio.Writer, dir string, prog *ssa.Program, lg *config.
 		for sel := 0; sel < 4; sel++ {
 			raw := dataflow.CallGraphReachable(cg, sel&1 != 0, sel&2 != 0)
 			emit("C", sel, raw)
-			emit("D", sel, realizableCG(cg, sel&1 != 0, sel&2 != 0))
+			emit("D", sel, realizableCG(prog, cg, sel&1 != 0, sel&2 != 0))
 		}
 	}
 	stats["nil_reported"] = nilReported
@@ -652,46 +653,78 @@ func dumpFunction(w *strings.Builder, f *ssa.Function, fidOf func(*ssa.Function)
 	}
 }
 
-// realizableCG is call-graph reachability restricted to edges that can occur at run time as far as closures are concerned:
-// the pointer analysis generates constraints for every function of the program, so a helper such as os.ignoringEINTR(fn)
-// gets call edges to every closure passed to it anywhere, including closures created by functions that are not reachable
-// themselves (os.chmod$1 when os.chmod is never called).  A closure value exists only if its enclosing function ran, so a
-// dynamic edge to an anonymous function is followed only once its parent is reached.
-func realizableCG(cg *callgraph.Graph, excludeMain, excludeInit bool) map[*ssa.Function]bool {
+// realizableCG is call-graph reachability restricted to edges that can occur at run time as far as the existence of the
+// callee's function value is concerned.  The pointer analysis generates constraints for EVERY function of the program, so a
+// dynamic call site (a helper such as os.ignoringEINTR(fn), an invoke on io.Writer) gets call edges to every function value /
+// receiver type that flows there from anywhere, including from functions that are not reachable themselves (os.chmod$1 when
+// os.chmod is never called; a $bound method-value wrapper or an io.Writer implementation created only in unreachable code).
+// A dynamic edge is therefore followed only once its callee is AVAILABLE: it occurs as a *ssa.Function operand (callee,
+// argument, stored value, MakeClosure.Fn - this covers anonymous functions, $bound and $thunk wrappers) of an instruction
+// of a reached function, or it is a method of a type that a reached function converts to an interface (MakeInterface).
+// Static edges are always followed.
+func realizableCG(prog *ssa.Program, cg *callgraph.Graph, excludeMain, excludeInit bool) map[*ssa.Function]bool {
 	reached := map[*ssa.Function]bool{}
-	pending := map[*ssa.Function][]*callgraph.Node{}
-	var work []*callgraph.Node
-	reach := func(n *callgraph.Node) {
-		if n.Func == nil || reached[n.Func] {
+	avail := map[*ssa.Function]bool{}
+	pending := map[*ssa.Function]bool{} // callees of dynamic edges from reached functions, not available yet
+	var work []*ssa.Function
+	reach := func(f *ssa.Function) {
+		if f == nil || reached[f] {
 			return
 		}
-		reached[n.Func] = true
-		work = append(work, n)
+		reached[f] = true
+		work = append(work, f)
+	}
+	makeAvail := func(f *ssa.Function) {
+		if f == nil || avail[f] {
+			return
+		}
+		avail[f] = true
+		if pending[f] {
+			delete(pending, f)
+			reach(f)
+		}
 	}
 	for f, n := range cg.Nodes {
 		if n.ID != 0 && f != nil && f.Pkg != nil && f.Pkg.Pkg.Name() == "main" &&
 			((!excludeMain && f.Name() == "main") || (!excludeInit && f.Name() == "init")) {
-			reach(n)
+			reach(f)
 		}
 	}
+	var ops []*ssa.Value
 	for len(work) > 0 {
-		n := work[len(work)-1]
+		f := work[len(work)-1]
 		work = work[:len(work)-1]
-		for _, waiting := range pending[n.Func] {
-			reach(waiting)
+		for _, b := range f.Blocks {
+			for _, ins := range b.Instrs {
+				ops = ins.Operands(ops[:0])
+				for _, op := range ops {
+					if g, ok := (*op).(*ssa.Function); ok {
+						makeAvail(g)
+					}
+				}
+				if mi, ok := ins.(*ssa.MakeInterface); ok {
+					mset := prog.MethodSets.MethodSet(mi.X.Type())
+					for i := 0; i < mset.Len(); i++ {
+						makeAvail(prog.MethodValue(mset.At(i)))
+					}
+				}
+			}
 		}
-		delete(pending, n.Func)
+		n := cg.Nodes[f]
+		if n == nil {
+			continue
+		}
 		for _, e := range n.Out {
-			callee := e.Callee
-			if callee.Func == nil {
+			callee := e.Callee.Func
+			if callee == nil || reached[callee] {
 				continue
 			}
-			static := e.Site != nil && e.Site.Common().StaticCallee() == callee.Func
-			if p := callee.Func.Parent(); p != nil && !static && !reached[p] {
-				pending[p] = append(pending[p], callee)
-				continue
+			static := e.Site != nil && e.Site.Common().StaticCallee() == callee
+			if static || avail[callee] {
+				reach(callee)
+			} else {
+				pending[callee] = true
 			}
-			reach(callee)
 		}
 	}
 	return reached
